@@ -268,7 +268,12 @@ Proof. vm_compute. reflexivity. Qed.
 Lemma live_zf_length : (length zfile_prefix <= max_prefix_len)%nat.
 Proof. vm_compute. lia. Qed.
 Lemma zlib_is_not_lz4 : list_eqb zlib_name lz4_name = false.
-Proof. reflexivity. Qed.
+Proof. vm_compute. reflexivity. Qed.
+(* the fallback compressor of _write_fileobject is dump's default method; levels are range(10) *)
+Lemma live_fallback_is_default : fallback_name = zlib_name.
+Proof. vm_compute. reflexivity. Qed.
+Lemma live_level_stop : dump_level_stop = 10.
+Proof. vm_compute. reflexivity. Qed.
 
 Lemma prefix_len_le : forall e, In e registry -> (length (e_prefix e) <= max_prefix_len)%nat.
 Proof.
@@ -287,7 +292,7 @@ Proof. intros n H. unfold in_registry in H. destruct (lookup n) as [e|]; [eauto 
 
 Lemma write_codec_registered : forall m, in_registry (write_codec m) = true.
 Proof.
-  intros [n|]; cbn [write_codec]; [|exact live_zlib_registered].
+  intros [n|]; cbn [write_codec]; rewrite ?live_fallback_is_default; [|exact live_zlib_registered].
   destruct (in_registry n) eqn:E; [exact E | exact live_zlib_registered].
 Qed.
 
@@ -352,7 +357,7 @@ End RoundTrip.
 (* ------------------------------------------------------------------ resolve against the documented table *)
 
 Lemma level_valid_int : forall n, level_valid (LInt n) = true <-> 0 <= n <= 9.
-Proof. intro n. cbn [level_valid]. rewrite andb_true_iff, Z.leb_le, Z.ltb_lt. lia. Qed.
+Proof. intro n. cbn [level_valid]. rewrite live_level_stop, andb_true_iff, Z.leb_le, Z.ltb_lt. lia. Qed.
 
 Lemma resolve_tuple_bad : forall t, resolve CTupleBad t = Raise ValueError.
 Proof. reflexivity. Qed.
